@@ -32,6 +32,20 @@ pub(crate) fn decode_metadata(bytes: &[u8]) -> Option<Metadata> {
     Some(meta)
 }
 
+/// Whether an entry header naming `owned_by` fits into the fixed-size header slot.
+pub(crate) fn metadata_fits(owned_by: &str) -> bool {
+    let probe = Metadata {
+        read_size: 0,
+        owned_by: owned_by.to_string(),
+        next_block_start: 0,
+        checksum: 0,
+    };
+    match rkyv::to_bytes::<_, 256>(&probe) {
+        Ok(bytes) => bytes.len() <= PREFIX_META_SIZE - 2,
+        Err(_) => false,
+    }
+}
+
 #[derive(Clone, Debug)]
 pub struct Block {
     pub(crate) id: u64,
